@@ -107,10 +107,10 @@ spec("C06", "Emitted code is valid Python",
 
 spec("C07", "Parsing faithful to Python's view",
      [lambda prog, rep, tier: D.rule_det1(prog, rep, tier, scope=prog.reachable([prog.fn("parse.function"), prog.fn("parse.class_")]), accepted=DET1_ACCEPTED),
-      A.rule_align_parse, O.rule_sigcover, det3("parse", "parse.function", "parse.class_")],
+      A.rule_align_parse, O.rule_sigcover, O.rule_first_match, det3("parse", "parse.function", "parse.class_")],
      "Necessary conditions: (DET-1) on the parse path no iteration order of an unordered collection reaches the parameter mapping (order independent of run-to-run "
      "variation); (ALIGN-parse) signature defaults stay aligned with their arguments; (SIGCOVER) args, kwonlyargs and **kwarg each reach the result on some read that "
-     "is not guarded by docstring-derived data. (DET-3, scoped) no function on this property's code path writes state that outlives the call (module globals/objects, function or class attributes, mutated mutable defaults, memoised mutable results): the conversion is not history-dependent.",
+     "is not guarded by docstring-derived data; (FIRST-MATCH) the method merged into a class is the first definition of that name in breadth-first order (the class's own, not a nested class's). (DET-3, scoped) no function on this property's code path writes state that outlives the call (module globals/objects, function or class attributes, mutated mutable defaults, memoised mutable results): the conversion is not history-dependent.",
      floors={"DET-1": 2, "ALIGN-parse": 1, "SIGCOVER": 3},
      technique="unordered-value dataflow with order-sensitive-effect classification; length algebra; guard (control-dependence) analysis of signature reads",
      not_decided="that the order is the source order (documented-first is value-level), precedence of documented information, prose attribution, the inspect path")
@@ -126,11 +126,11 @@ spec("C08", "Fixed point after one pass",
      not_decided="byte identity of the 2nd and 3rd emission in general (quote guards, indentation, wrapping are value-level)")
 
 spec("C09", "sync makes targets agree",
-     [C.rule_call_direct, C.rule_call_dispatch, C2.rule_cli2, V.rule_visit1, F.rule_file5, F.rule_file2b, F.rule_file2c, det3("sync", "conformance.ground_truth")],
+     [C.rule_call_direct, C.rule_call_dispatch, C2.rule_cli2, V.rule_visit1, F.rule_file5, F.rule_file2b, F.rule_file2c, M.rule_modf2_conform, det3("sync", "conformance.ground_truth")],
      "Necessary conditions: (CALL) every call through the sync dispatch table binds to its callee's signature for every table row and branch (create / append / replace), "
      "on top of 290+ directly resolved calls; (CLI-2) no accepted combination of the three kinds dereferences an option that was not given (192 abstract states); (VISIT-1) "
      "every visit_<T> override of the replacer replaces under the location predicate or delegates; (FILE-5) an appended definition starts on a new line; (FILE-2c) an "
-     "existing, found definition is left unwritten only when its tree equals the replacement. (DET-3, scoped) no function on this property's code path writes state that outlives the call (module globals/objects, function or class attributes, mutated mutable defaults, memoised mutable results): the conversion is not history-dependent.",
+     "existing, found definition is left unwritten only when its tree equals the replacement; (FILE-2b incl. ZIP-EQ) an existing file is rewritten only under an AST inequality test whose element-wise comparison also compares lengths; (MOD-F2) each target receives a freshly built replacement node. (DET-3, scoped) no function on this property's code path writes state that outlives the call (module globals/objects, function or class attributes, mutated mutable defaults, memoised mutable results): the conversion is not history-dependent.",
      floors={"CALL": 8, "CLI-2": 1, "VISIT-1": 2, "FILE-5": 1, "FILE-2c": 1},
      technique="signature binding over resolved and table-dispatched calls; finite abstract interpretation of option presence; CFG path enumeration; visitor-protocol check",
      not_decided="that the parsed targets equal the truth IR (values); method target absent from the file (a bare function is appended)")
@@ -164,10 +164,10 @@ spec("C12", "Deterministic output",
      not_decided="nothing structural is left out; trusted: determinism of ast, textwrap, black, yaml, json, pickle for the values they are given; objects with address-bearing repr are outside the input domain")
 
 spec("C13", "Non-interference through shared inputs",
-     [M.rule_mod1_2, M.rule_mod3, det3("all", "emit.docstring", "emit.class_", "emit.function", "emit.argparse_function", "parse.docstring", "parse.class_", "parse.function", "parse.argparse_ast")],
+     [M.rule_mod1_2, M.rule_mod3, M.rule_modf2_conform, det3("all", "emit.docstring", "emit.class_", "emit.function", "emit.argparse_function", "parse.docstring", "parse.class_", "parse.function", "parse.argparse_ast")],
      "Decided by an alias/ownership abstraction of the dict IR (levels IR / params-returns / parameter dict / carried body): (MOD-1) no emitter changes the shape (keys, "
      "parameter set, order) of the IR it was given; (MOD-2) carried body nodes are not transformed in place; (MOD-5) no emit-path helper writes into a parameter dict "
-     "of the caller's IR (every such write goes to an owned copy); (MOD-3) parsers write AST fields of their input only after rebinding it to a copy on every path. (DET-3, scoped) no function on this property's code path writes state that outlives the call (module globals/objects, function or class attributes, mutated mutable defaults, memoised mutable results): the conversion is not history-dependent.",
+     "of the caller's IR (every such write goes to an owned copy); (MOD-3) parsers write AST fields of their input only after rebinding it to a copy on every path; (MOD-F2) the node sync grafts into a target's tree is built afresh for that target (a constructor call, a deepcopy or a result of a dispatch-table emitter, all of which return constructor calls), never handed back from a cache or container shared between the targets of one run. (DET-3, scoped) no function on this property's code path writes state that outlives the call (module globals/objects, function or class attributes, mutated mutable defaults, memoised mutable results): the conversion is not history-dependent.",
      floors={"MOD-5": 5, "MOD-3": 3},
      technique="flow-sensitive abstract interpretation over IR levels with interprocedural (function, kinds) summaries; CFG must-pass-through for copies",
      not_decided="value-level effects of reads; helpers reached only through unresolved dynamic calls")
@@ -217,9 +217,9 @@ spec("C18", "Wrapping / line length transparent",
      not_decided="parse(wrapped) == parse(unwrapped) in general")
 
 spec("C19", "gen writes one definition per entry",
-     [C.rule_call_getattr, F.rule_file6, F.rule_file6b, O.rule_allpair, O.rule_gen_layout, CLI.rule_cli1, det3("gen", "gen.gen")],
+     [C.rule_call_getattr, F.rule_file6, F.rule_file6b, O.rule_allpair, O.rule_gen_layout, O.rule_first_match, CLI.rule_cli1, det3("gen", "gen.gen")],
      "Necessary conditions: (CALL) for each --type value the getattr(emit, ...) call binds to the selected emitter's signature; (FILE-6) the existing-output guard dominates "
-     "the gen call with a no-return failing branch; (ALL-PAIR) __all__ is built from the list filled exactly once per mapping entry with the expression that names the "
+     "the gen call with a no-return failing branch; (FIRST-MATCH) a class entry is described by its own `__init__` (first match in breadth-first order), not a nested class's; (ALL-PAIR) __all__ is built from the list filled exactly once per mapping entry with the expression that names the "
      "emitted definition, after the definitions are joined; (CLI-1) gen's CLI dests bind to gen's signature. (DET-3, scoped) no function on this property's code path writes state that outlives the call (module globals/objects, function or class attributes, mutated mutable defaults, memoised mutable results): the conversion is not history-dependent.",
      floors={"CALL": 3, "FILE-6": 5, "ALL-PAIR": 2, "CLI-1": 2},
      technique="finite-domain constant folding of dynamic dispatch; CFG path facts; def-use of the __all__ list",
